@@ -14,8 +14,8 @@ instance (q : Q) : Decidable (Inc q) := by unfold Inc; infer_instance
 private theorem abs_drop (q : Q) (n : Nat) : abs (q.drop n) = (abs q).drop n := by
   simp [abs, List.map_drop]
 
-/-- One step of the queue is one step of the reference FIFO (simulation, any state). -/
-theorem C17_step_refines (q : Q) (op : Op) :
+/-- One step of the plain slice operations is one step of the reference FIFO (simulation, any state). -/
+theorem C17_step_refines_slice (q : Q) (op : Op) :
     abs (step q op).1 = (refStep (abs q) op).1 ∧ absOut (step q op).2 = (refStep (abs q) op).2 := by
   cases op with
   | push s => simp [step, refStep, push, abs, absOut]
@@ -43,24 +43,35 @@ theorem C17_step_refines (q : Q) (op : Op) :
     · simp [step, refStep, peekN, hk, abs, absOut]
   | empty => simp [step, refStep, abs, absOut]
 
+/-- One step of the queue object (slice + persistent counter) is one step of the reference FIFO. -/
+theorem C17_step_refines (s : QS) (op : Op) :
+    abs (stepS s op).1.q = (refStep (abs s.q) op).1 ∧ absOut (stepS s op).2 = (refStep (abs s.q) op).2 := by
+  cases op with
+  | push x => simp [stepS, pushS, refStep, abs, absOut]
+  | pop => exact C17_step_refines_slice s.q .pop
+  | popn k => exact C17_step_refines_slice s.q (.popn k)
+  | peek => exact C17_step_refines_slice s.q .peek
+  | peekn k => exact C17_step_refines_slice s.q (.peekn k)
+  | empty => exact C17_step_refines_slice s.q .empty
+
 /-- **Refinement**: any operation sequence, from any queue, returns exactly what the reference
 FIFO returns and ends holding exactly what it holds. -/
-theorem C17_refines (ops : List Op) : ∀ q : Q,
-    abs (run q ops).1 = (refRun (abs q) ops).1 ∧
-    (run q ops).2.map absOut = (refRun (abs q) ops).2 := by
+theorem C17_refines (ops : List Op) : ∀ s : QS,
+    abs (runS s ops).1.q = (refRun (abs s.q) ops).1 ∧
+    (runS s ops).2.map absOut = (refRun (abs s.q) ops).2 := by
   induction ops with
-  | nil => intro q; simp [run, refRun]
+  | nil => intro s; simp [runS, refRun]
   | cons op ops ih =>
-    intro q
-    have h := C17_step_refines q op
-    have ih' := ih (step q op).1
-    simp only [run, refRun]
+    intro s
+    have h := C17_step_refines s op
+    have ih' := ih (stepS s op).1
+    simp only [runS, refRun]
     rw [← h.1, ← h.2]
     exact ⟨ih'.1, by simp [ih'.2]⟩
 
 /-- Peek, PeekN and Empty never modify the queue. -/
-theorem C17_peek_pure (q : Q) (op : Op) (h : isPeek op = true) : (step q op).1 = q := by
-  cases op <;> simp_all [isPeek, step]
+theorem C17_peek_pure (s : QS) (op : Op) (h : isPeek op = true) : (stepS s op).1 = s := by
+  cases op <;> simp_all [isPeek, stepS, step]
 
 private theorem le_last : ∀ (q : Q) (e l : Entry), Inc q → e ∈ q → q.getLast? = some l → e.id ≤ l.id := by
   intro q
@@ -81,54 +92,57 @@ private theorem le_last : ∀ (q : Q) (e l : Entry), Inc q → e ∈ q → q.get
         omega
       · exact ih e l h.2 he' hl'
 
-private theorem inc_push (q : Q) (s : String) (h : Inc q) : Inc (push q s) := by
+private theorem inc_push (s : QS) (x : String) (h : Inc s.q) : Inc (pushS s x).q := by
   have h0 := h
-  unfold Inc push at *
+  unfold Inc pushS at *
+  simp only
   rw [List.map_append, List.pairwise_append]
   refine ⟨h, by simp, ?_⟩
   intro a ha b hb
   simp only [List.map_cons, List.map_nil, List.mem_singleton] at hb
   subst hb
   obtain ⟨e, he, rfl⟩ := List.mem_map.mp ha
-  unfold nextId
-  cases hl : q.getLast? with
+  unfold nextIdS
+  cases hl : s.q.getLast? with
   | none =>
-    have : q = [] := List.getLast?_eq_none_iff.mp hl
-    subst this; simp at he
+    have : s.q = [] := List.getLast?_eq_none_iff.mp hl
+    rw [this] at he; simp at he
   | some l =>
-    have := le_last q e l h0 he hl
+    have := le_last s.q e l h0 he hl
     simp only; omega
 
 /-- Inductive step: every operation preserves strictly increasing sequence numbers. -/
-theorem C17_ids_step (q : Q) (op : Op) (h : Inc q) : Inc (step q op).1 := by
+theorem C17_ids_step (s : QS) (op : Op) (h : Inc s.q) : Inc (stepS s op).1.q := by
   cases op with
-  | push s => exact inc_push q s h
+  | push x => exact inc_push s x h
   | pop =>
-    cases q with
-    | nil => simpa [step, pop] using h
+    simp only [stepS, step]
+    cases hq : s.q with
+    | nil => simp [pop, Inc]
     | cons e r =>
-      simp only [step, pop]
+      simp only [pop]
       unfold Inc at *
+      rw [hq] at h
       simp only [List.map_cons, List.pairwise_cons] at h
       exact h.2
   | popn k =>
-    simp only [step, popN]
+    simp only [stepS, step, popN]
     unfold Inc at *
     rw [List.map_drop]
     exact List.Pairwise.drop h
-  | peek => simpa [step] using h
-  | peekn k => simpa [step] using h
-  | empty => simpa [step] using h
+  | peek => simpa [stepS, step] using h
+  | peekn k => simpa [stepS, step] using h
+  | empty => simpa [stepS, step] using h
 
 /-- **Every reachable state** (any operation sequence from a fresh queue, or from any state that
 already satisfies it) carries strictly increasing sequence numbers in insertion order. -/
-theorem C17_ids_increasing (ops : List Op) : ∀ q : Q, Inc q → Inc (run q ops).1 := by
+theorem C17_ids_increasing (ops : List Op) : ∀ s : QS, Inc s.q → Inc (runS s ops).1.q := by
   induction ops with
-  | nil => intro q h; simpa [run] using h
-  | cons op ops ih => intro q h; simpa [run] using ih _ (C17_ids_step q op h)
+  | nil => intro s h; simpa [runS] using h
+  | cons op ops ih => intro s h; simpa [runS] using ih _ (C17_ids_step s op h)
 
-theorem C17_ids_increasing_fresh (ops : List Op) : Inc (run [] ops).1 :=
-  C17_ids_increasing ops [] (by simp [Inc])
+theorem C17_ids_increasing_fresh (ops : List Op) : Inc (runS ⟨[], 0⟩ ops).1.q :=
+  C17_ids_increasing ops ⟨[], 0⟩ (by simp [Inc])
 
 private theorem idsIncreasing_iff (l : List Nat) : idsIncreasing l = true ↔ List.Pairwise (· < ·) l := by
   induction l with
@@ -151,15 +165,15 @@ private theorem idsIncreasing_iff (l : List Nat) : idsIncreasing l = true ↔ Li
 
 /-- The run-time oracle accepts exactly the model's own behaviour on every reachable state: the
 oracle used to judge the implementation is implied by the theorems above (it is not stricter). -/
-theorem C17_oracle_accepts_model (q : Q) (op : Op) (h : Inc q) :
-    (holdsStep ⟨abs q, q⟩ op ⟨(step q op).2, (step q op).1⟩).1 = true := by
-  have hr := C17_step_refines q op
-  have hi := (idsIncreasing_iff _).mpr (C17_ids_step q op h)
+theorem C17_oracle_accepts_model (s : QS) (op : Op) (h : Inc s.q) :
+    (holdsStep ⟨abs s.q, s.q⟩ op ⟨(stepS s op).2, (stepS s op).1.q⟩).1 = true := by
+  have hr := C17_step_refines s op
+  have hi := (idsIncreasing_iff _).mpr (C17_ids_step s op h)
   simp only [holdsStep, Bool.and_eq_true, decide_eq_true_eq, Bool.or_eq_true, Bool.not_eq_true']
   refine ⟨⟨⟨hr.2, hr.1⟩, hi⟩, ?_⟩
   cases hp : isPeek op with
   | false => simp
-  | true => right; exact C17_peek_pure q op hp
+  | true => right; rw [C17_peek_pure s op hp]
 
 /-- nil receiver: behaves as the empty reference FIFO and never changes. -/
 theorem C17_nil_receiver (op : Op) : absOut (stepNil op) = (refStep [] op).2 := by
@@ -168,8 +182,10 @@ theorem C17_nil_receiver (op : Op) : absOut (stepNil op) = (refStep [] op).2 := 
 
 -- Non-vacuity: a concrete non-trivial reachable state satisfies the hypotheses and exercises
 -- in-range, out-of-range and negative counts.
-example : Inc (run [] [.push "a", .push "b", .push "c", .pop, .push "d"]).1 := by decide
-example : (run [] [.push "a", .push "b", .push "c", .popn 2, .push "d", .peekn 5, .popn (-1)]).2
+example : Inc (runS ⟨[], 0⟩ [.push "a", .push "b", .push "c", .pop, .push "d"]).1.q := by decide
+-- numbering continues after the queue was drained
+example : (runS ⟨[], 0⟩ [.push "a", .pop, .push "b"]).1 = ⟨[⟨2, "b"⟩], 2⟩ := by decide
+example : (runS ⟨[], 0⟩ [.push "a", .push "b", .push "c", .popn 2, .push "d", .peekn 5, .popn (-1)]).2
     = [.ents [], .ents [], .ents [], .ents [⟨1, "a"⟩, ⟨2, "b"⟩], .ents [],
        .ents [⟨3, "c"⟩, ⟨4, "d"⟩], .ents []] := by decide
 
@@ -177,6 +193,7 @@ end XmppVerif.Props.C17
 
 #print axioms XmppVerif.Props.C17.C17_refines
 #print axioms XmppVerif.Props.C17.C17_step_refines
+#print axioms XmppVerif.Props.C17.C17_step_refines_slice
 #print axioms XmppVerif.Props.C17.C17_peek_pure
 #print axioms XmppVerif.Props.C17.C17_ids_step
 #print axioms XmppVerif.Props.C17.C17_ids_increasing
